@@ -71,11 +71,17 @@ def c06Eval (toks : List String) : Option C06Case :=
     let tag ← parseOvTag tag; let S ← parseIntTy st; let D ← parseIntTy dt; let v ← v.toInt?
     some { model := checkedConvert tag D (S, v), want := some (c06Want tag D v), cls := "",
            branch := s!"cvt/{tag.toString}" ++ (if D.inRange v then "" else "/ovf") }
+  | ["ccvt", _path, tag, st, dt, v] => do
+    -- `convert<Tag, D>{}(constant<V>{})`, `S = decltype(V)`: the exact value of the constant decides
+    let tag ← parseOvTag tag; let S ← parseIntTy st; let D ← parseIntTy dt; let v ← v.toInt?
+    some { model := checkedConvert tag D (S, v), want := some (c06Want tag D v), cls := "",
+           branch := s!"ccvt/{tag.toString}" ++ (if v > D.max then "/pos" else if v < D.lowest then "/neg" else "") ++
+             (if S.signed != D.signed then "/mixed" else "") }
   | ["wcvt", _path, tag, kind, st, dt, v] => do
     -- an overflow_integer converted as a number: constructor from a related / unrelated wrapper or a built-in,
     -- assignment, function argument, conversion operator to a built-in (`wb`: prints the bare value)
     let tag ← parseOvTag tag; let S ← parseIntTy st; let D ← parseIntTy dt; let v ← v.toInt?
-    guard (["ww", "wa", "wf", "wb", "bw", "rw", "ew"].contains kind)
+    guard (["ww", "wa", "wf", "wb", "bw", "rw", "ew", "cw"].contains kind)
     some { model := wrapperConvert tag D (S, v), want := some (c06Want tag D v), cls := "",
            branch := s!"wcvt/{kind}/{tag.toString}" ++ (if v > D.max then "/pos" else if v < D.lowest then "/neg" else "") ++
              (if S.signed && !D.signed && S.digits ≤ D.digits then "/s2u_wide" else ""),
